@@ -209,4 +209,71 @@ theorem Query.setQrv_arith (raw v : Nat) : Query.setQrv raw v = raw / 8 * 8 + v 
   unfold Query.setQrv
   rw [lor_eq_add 3 _ _ (by omega) (by omega)]
 
+/-! ### Ipv6Header -/
+
+theorem spanVal_lt_aux (b : Bytes) (off n : Nat) : spanVal b off n < 256 ^ n := by
+  induction n with
+  | zero => simp [spanVal]
+  | succ n ih =>
+    have := bAt_lt b (off + n)
+    simp only [spanVal, Nat.pow_succ]
+    omega
+
+/-- a field that consists of `n` whole bytes is the big endian value of those bytes. -/
+theorem extract_whole_aux (name : String) (off n : Nat) (b : Bytes) :
+    extract ⟨name, off, 0, 8 * n⟩ b = spanVal b off n := by
+  have h1 : (0 + 8 * n + 7) / 8 = n := by omega
+  have h2 : n * 8 - 0 - 8 * n = 0 := by omega
+  have h3 : (2 : Nat) ^ (8 * n) = 256 ^ n := by rw [Nat.pow_mul]
+  simp only [extract, Field.nBytes, Field.low, h1, h2, Nat.pow_zero, Nat.div_one, h3]
+  exact Nat.mod_eq_of_lt (spanVal_lt_aux b off n)
+
+theorem bAt_sub_aux (b : Bytes) (o l i : Nat) (h : i < l) : bAt (sub b o l) i = bAt b (o + i) := by
+  unfold bAt sub
+  simp [List.getD_eq_getElem?_getD, h]
+
+theorem tc_or_aux (x y : Nat) (hy : y < 256) :
+    (x * 16 % 256) ||| (y / 16) = x * 16 % 256 + y / 16 :=
+  lor_eq_add 4 _ _ (by omega) (by omega)
+
+def Ip6.get (h : Ip6) (name : String) : Nat :=
+  if name = "version" then 6 else if name = "traffic_class" then h.trafficClass
+  else if name = "flow_label" then h.flowLabel else if name = "payload_len" then h.payloadLen
+  else if name = "next_header" then h.nextHeader else if name = "hop_limit" then h.hopLimit
+  else if name = "src" then spanVal h.src 0 16 else if name = "dst" then spanVal h.dst 0 16 else 0
+
+def Ip6.set (h : Ip6) (name : String) (v : Nat) : Ip6 :=
+  if name = "traffic_class" then { h with trafficClass := v }
+  else if name = "flow_label" then { h with flowLabel := v }
+  else if name = "payload_len" then { h with payloadLen := v }
+  else if name = "next_header" then { h with nextHeader := v }
+  else if name = "hop_limit" then { h with hopLimit := v } else h
+
+def Ip6.settable : List String :=
+  ["traffic_class", "flow_label", "payload_len", "next_header", "hop_limit"]
+
+theorem Ip6.toBytes_arith (h : Ip6) (wf : h.WF) :
+    h.toBytes =
+  [ u8 (96 + h.trafficClass / 16),
+    u8 (h.trafficClass * 16 % 256 + h.flowLabel / 65536),
+    u8 (h.flowLabel / 256 % 256), u8 (h.flowLabel % 256),
+    u8 (h.payloadLen / 256 % 256), u8 (h.payloadLen % 256),
+    u8 h.nextHeader, u8 h.hopLimit,
+    arr h.src 0, arr h.src 1, arr h.src 2, arr h.src 3,
+    arr h.src 4, arr h.src 5, arr h.src 6, arr h.src 7,
+    arr h.src 8, arr h.src 9, arr h.src 10, arr h.src 11,
+    arr h.src 12, arr h.src 13, arr h.src 14, arr h.src 15,
+    arr h.dst 0, arr h.dst 1, arr h.dst 2, arr h.dst 3,
+    arr h.dst 4, arr h.dst 5, arr h.dst 6, arr h.dst 7,
+    arr h.dst 8, arr h.dst 9, arr h.dst 10, arr h.dst 11,
+    arr h.dst 12, arr h.dst 13, arr h.dst 14, arr h.dst 15 ] := by
+  obtain ⟨h1, h2, h3, h4, h5, h6, h7⟩ := wf
+  unfold Ip6.toBytes
+  have e0 : (6 * 16) ||| (h.trafficClass / 16) = 96 + h.trafficClass / 16 :=
+    lor_eq_add 4 _ _ (by omega) (by omega)
+  have e1 : (h.trafficClass * 16 % 256) ||| (h.flowLabel / 65536 % 256)
+      = h.trafficClass * 16 % 256 + h.flowLabel / 65536 := by
+    rw [lor_eq_add 4 _ _ (by omega) (by omega)]; omega
+  simp only [e0, e1]
+
 end EpModel.BitFields
